@@ -79,8 +79,12 @@ Definition own_failed (s : status) : bool := fblock s || fpop s.
 Definition valid_upto (l : N) (s : status) : bool := (l <=? level s)%N.         (* isValidUpTo *)
 Definition is_valid (l : N) (s : status) : bool := negb (failed s) && valid_upto l s.   (* isValid(upTo) *)
 
-(* deleteTemporarily: status = (status & BLOCK_FAILED_MASK) | BLOCK_VALID_UNKNOWN | BLOCK_DELETED *)
-Definition st_delete (s : status) : status := mkSt L_UNKNOWN false (fblock s) (fpop s) (fchild s) false false true.
+(* deleteTemporarily: status = (status & BLOCK_FAILED_MASK & ~BLOCK_FAILED_POP) | BLOCK_VALID_UNKNOWN | BLOCK_DELETED
+   (/repo af8cb563; before that fix BLOCK_FAILED_POP was preserved: [st_delete_v0], see corpus/C08/readd_failed_pop.txt).
+   Note: the removed descendants keep their FAILED_CHILD even when the POP flag was the only failure of the removed
+   block - FAILED_CHILD may therefore be stale (carried below a block that is not failed). *)
+Definition st_delete (s : status) : status := mkSt L_UNKNOWN false (fblock s) false (fchild s) false false true.
+Definition st_delete_v0 (s : status) : status := mkSt L_UNKNOWN false (fblock s) (fpop s) (fchild s) false false true.
 
 Definition tip_level (k : kind) : N := match k with ALT => L_CONNECTED | POW => L_TREE end.   (* addon_t::validTipLevel *)
 Definition can_be_tip (k : kind) (s : status) : bool := negb (deleted s) && is_valid (tip_level k) s.
@@ -218,9 +222,6 @@ Definition insert_header (s : tree) (id parent : N) (proof : Z) : outcome tree :
 Definition alt_hdr (s : tree) (id parent : N) : outcome (tree * result) :=
   match find_blk id (blocks s) with
   | Some x => if deleted (bst x) then
-      (* checked domain: a block removed while carrying BLOCK_FAILED_POP is not re-added (it would come back at
-         BLOCK_VALID_UNKNOWN: raiseValidity refuses, see the finding "readd-failed-pop") *)
-      if fpop (bst x) then Skip else
       (* a deleted block keeps its own previousBlock *)
       match bparent x with
       | None => Skip
@@ -627,7 +628,6 @@ Definition pow_hdr (s : tree) (id parent : N) (proof : Z) : outcome (tree * resu
              | None => parent end in
   match find_blk id (blocks s) with
   | Some x => match bparent x with None => Skip | Some _ =>
-    if deleted (bst x) && fpop (bst x) then Skip else      (* checked domain, as in alt_hdr *)
     match find_blk par (blocks s) with
     | None => Done (s, RFailPrev)
     | Some p => if deleted (bst p) then Done (s, RFailPrev) else
